@@ -184,7 +184,7 @@ def runAsmLine (modelAsm : Option (Config → List Nat → String)) (line : Stri
           let mut out : List String := []
           let bytes := unhex hex
           -- tie with the assembler model
-          match modelAsm with
+          match (if hex.length > 300000 then none else modelAsm) with   -- very large inputs: predicates only
           | some f =>
             let m := f cfg bytes
             if m != "unmodelled" then
